@@ -6,10 +6,12 @@ package main
 //     altered tokens, against the issuer and against other principals.
 
 import (
+	"encoding/base64"
 	"fmt"
 	"math/rand"
 	"sort"
 	"strings"
+	"unicode/utf8"
 
 	"github.com/ipfs/go-cid"
 	ipldprime "github.com/ipld/go-ipld-prime"
@@ -23,8 +25,12 @@ import (
 	"github.com/storacha/go-ucanto/core/ipld/block"
 	"github.com/storacha/go-ucanto/core/ipld/codec/cbor"
 	hsha "github.com/storacha/go-ucanto/core/ipld/hash/sha256"
+	"github.com/storacha/go-ucanto/did"
 	"github.com/storacha/go-ucanto/ucan"
+	"github.com/storacha/go-ucanto/ucan/crypto/signature"
+	pdm "github.com/storacha/go-ucanto/ucan/datamodel/payload"
 	udm "github.com/storacha/go-ucanto/ucan/datamodel/ucan"
+	"github.com/storacha/go-ucanto/ucan/formatter"
 )
 
 type nodeNb struct{ n datamodel.Node }
@@ -158,6 +164,182 @@ func utokenCoqFromBytes(b []byte) (string, error) {
 type c07Alteration struct {
 	name  string
 	apply func(m *udm.UCANModel, other *Prin) bool // false: not applicable
+}
+
+// alterations that are dag-json collisions -> KNOWN_FINDINGS key reported when the altered token still verifies
+var c07CollisionKeys = map[string]string{"nb-bytes-to-slash-map": "json-slash-bytes", "nb-link-to-slash-map": "json-slash-link",
+	"nb-int-to-integral-float": "json-integral-float", "string-invalid-utf8-swap": "json-invalid-utf8", "aud-invalid-utf8-swap": "json-invalid-utf8-did", "aud-undecodable-swap": "undecodable-audience"}
+
+// signPayloadOf rebuilds the signed string exactly the way ucan.VerifySignature does
+func signPayloadOf(u ucan.View) (alg string, payload string, err error) {
+	alg, err = signature.CodeName(u.Signature().Code())
+	if err != nil {
+		return "", "", err
+	}
+	var prfstrs []string
+	for _, link := range u.Proofs() {
+		prfstrs = append(prfstrs, link.String())
+	}
+	p := pdm.PayloadModel{Iss: u.Issuer().DID().String(), Aud: u.Audience().DID().String(), Att: u.Model().Att, Prf: prfstrs,
+		Exp: u.Expiration(), Fct: u.Model().Fct, Nnc: u.Model().Nnc, Nbf: u.Model().Nbf}
+	payload, err = formatter.FormatSignPayload(p, u.Version(), alg)
+	return alg, payload, err
+}
+
+// rewriteFirst rebuilds n with the first node (depth first) for which f returns a replacement replaced
+func rewriteFirst(n datamodel.Node, f func(datamodel.Node) (datamodel.Node, bool)) (datamodel.Node, bool) {
+	if r, ok := f(n); ok {
+		return r, true
+	}
+	switch n.Kind() {
+	case datamodel.Kind_List:
+		done := false
+		nb := basicnode.Prototype.List.NewBuilder()
+		la, _ := nb.BeginList(n.Length())
+		for it := n.ListIterator(); !it.Done(); {
+			_, v, _ := it.Next()
+			if !done {
+				if r, ok := rewriteFirst(v, f); ok {
+					v, done = r, true
+				}
+			}
+			la.AssembleValue().AssignNode(v)
+		}
+		la.Finish()
+		return nb.Build(), done
+	case datamodel.Kind_Map:
+		done := false
+		nb := basicnode.Prototype.Map.NewBuilder()
+		ma, _ := nb.BeginMap(n.Length())
+		for it := n.MapIterator(); !it.Done(); {
+			k, v, _ := it.Next()
+			if !done {
+				if r, ok := rewriteFirst(v, f); ok {
+					v, done = r, true
+				}
+			}
+			ks, _ := k.AsString()
+			ma.AssembleKey().AssignString(ks)
+			ma.AssembleValue().AssignNode(v)
+		}
+		ma.Finish()
+		return nb.Build(), done
+	}
+	return n, false
+}
+
+func mapOf(key string, v datamodel.Node) datamodel.Node {
+	nb := basicnode.Prototype.Map.NewBuilder()
+	ma, _ := nb.BeginMap(1)
+	ma.AssembleKey().AssignString(key)
+	ma.AssembleValue().AssignNode(v)
+	ma.Finish()
+	return nb.Build()
+}
+
+// swapInvalidByte replaces the first byte that utf8 decoding rejects by another byte that is invalid everywhere
+func swapInvalidByte(s string) (string, bool) {
+	for i := 0; i < len(s); {
+		c, size := utf8.DecodeRuneInString(s[i:])
+		if c == utf8.RuneError && size == 1 {
+			b := []byte(s)
+			if b[i] == 0xff {
+				b[i] = 0xfe
+			} else {
+				b[i] = 0xff
+			}
+			return string(b), true
+		}
+		i += size
+	}
+	return s, false
+}
+
+// alterNb applies f to the first matching node of the caveats of any capability
+func alterNb(m *udm.UCANModel, f func(datamodel.Node) (datamodel.Node, bool)) bool {
+	att := append([]udm.CapabilityModel{}, m.Att...)
+	for i := range att {
+		if att[i].Nb == nil {
+			continue
+		}
+		if nb, ok := rewriteFirst(att[i].Nb, f); ok {
+			att[i].Nb = nb
+			m.Att = att
+			return true
+		}
+	}
+	return false
+}
+
+// the dag-json collisions: a different token value, the same signed bytes
+func c07CollisionAlterations() []c07Alteration {
+	return []c07Alteration{
+		{"nb-bytes-to-slash-map", func(m *udm.UCANModel, o *Prin) bool {
+			return alterNb(m, func(n datamodel.Node) (datamodel.Node, bool) {
+				if n.Kind() != datamodel.Kind_Bytes {
+					return nil, false
+				}
+				b, _ := n.AsBytes()
+				return mapOf("/", mapOf("bytes", basicnode.NewString(base64.RawStdEncoding.EncodeToString(b)))), true
+			})
+		}},
+		{"nb-link-to-slash-map", func(m *udm.UCANModel, o *Prin) bool {
+			return alterNb(m, func(n datamodel.Node) (datamodel.Node, bool) {
+				if n.Kind() != datamodel.Kind_Link {
+					return nil, false
+				}
+				l, _ := n.AsLink()
+				return mapOf("/", basicnode.NewString(l.String())), true
+			})
+		}},
+		{"nb-int-to-integral-float", func(m *udm.UCANModel, o *Prin) bool {
+			return alterNb(m, func(n datamodel.Node) (datamodel.Node, bool) {
+				if n.Kind() != datamodel.Kind_Int {
+					return nil, false
+				}
+				if _, isU := n.(datamodel.UintNode); isU {
+					return nil, false
+				}
+				v, err := n.AsInt()
+				if err != nil || v >= 1<<53 || v <= -(1<<53) {
+					return nil, false
+				}
+				return basicnode.NewFloat(float64(v)), true
+			})
+		}},
+		{"string-invalid-utf8-swap", func(m *udm.UCANModel, o *Prin) bool {
+			return alterNb(m, func(n datamodel.Node) (datamodel.Node, bool) {
+				if n.Kind() != datamodel.Kind_String {
+					return nil, false
+				}
+				s, _ := n.AsString()
+				if t, ok := swapInvalidByte(s); ok {
+					return basicnode.NewString(t), true
+				}
+				return nil, false
+			})
+		}},
+		{"aud-undecodable-swap", func(m *udm.UCANModel, o *Prin) bool {
+			// a token whose audience bytes are no DID at all (issued to did.Undef) signs "aud":"": any other undecodable bytes print the same
+			if _, err := did.Decode(m.Aud); err == nil {
+				return false
+			}
+			m.Aud = []byte{0x00, 0x01}
+			return true
+		}},
+		{"aud-invalid-utf8-swap", func(m *udm.UCANModel, o *Prin) bool {
+			d, err := did.Decode(m.Aud)
+			if err != nil || strings.HasPrefix(d.String(), "did:key:") || len(m.Aud) < 2 {
+				return false
+			}
+			t, ok := swapInvalidByte(string(m.Aud[2:]))
+			if !ok {
+				return false
+			}
+			m.Aud = append(append([]byte{}, m.Aud[:2]...), []byte(t)...)
+			return true
+		}},
+	}
 }
 
 func c07Alterations() []c07Alteration {
@@ -300,6 +482,41 @@ func c07Alterations() []c07Alteration {
 	}
 }
 
+// writeSignShards writes cases_<tag>_sign_NN.v: check_sign_memo (proved equal to check_sign) computes the DID
+// string of each distinct principal of the shard once
+func writeSignShards(dir, tag string, cases []string, dids [][][]byte, shards int) error {
+	if len(cases) == 0 {
+		return nil
+	}
+	per := (len(cases) + shards - 1) / shards
+	for k := 0; k*per < len(cases); k++ {
+		hi := (k + 1) * per
+		if hi > len(cases) {
+			hi = len(cases)
+		}
+		seen := map[string]bool{}
+		var ds []string
+		for _, pair := range dids[k*per : hi] {
+			for _, b := range pair {
+				if !seen[string(b)] {
+					seen[string(b)] = true
+					ds = append(ds, hx(b))
+				}
+			}
+		}
+		var sb strings.Builder
+		sb.WriteString(jsonCaseHeader)
+		defs, body := internPk("(" + coqList(ds) + ", " + coqList(cases[k*per:hi]) + ")")
+		sb.WriteString(defs)
+		fmt.Fprintf(&sb, "Definition input : list bstr * list (N * bstr * utoken * option bstr) := %s.\n", body)
+		sb.WriteString("Definition M := Eval vm_compute in check_sign_memo (fst input) (snd input).\nPrint M.\n")
+		if err := writeFile(dir, fmt.Sprintf("cases_%s_sign_%02d.v", tag, k), sb.String()); err != nil {
+			return err
+		}
+	}
+	return nil
+}
+
 func reDecode(m *udm.UCANModel) (delegation.Delegation, []byte, error) {
 	rt, err := block.Encode(m, udm.Type(), cbor.Codec, hsha.Hasher)
 	if err != nil {
@@ -322,8 +539,10 @@ func init() {
 		wrapped := cast.Wrapped("w", "did:web:wrapped.example", cast.Ed("wk"))
 		issuers := []*Prin{keys[0], keys[1], keys[2], wrapped}
 		cst := newCborStats()
-		var cases []string
+		var cases, signCases []string
+		var signDids [][][]byte
 		var direct []map[string]any
+		collHist := map[string]int{}
 		optHist := map[string]int{}
 		altHist := map[string]int{}
 		nverify, nalter := 0, 0
@@ -332,6 +551,14 @@ func init() {
 		for i := 0; i < n; i++ {
 			iss := issuers[i%len(issuers)]
 			aud := keys[r.Intn(len(keys))]
+			var audP ucan.Principal = aud.DID
+			if i%16 == 7 { // the undefined DID as audience (Delegate accepts it)
+				audP = did.Undef
+			} else if i%5 == 3 { // a generic (non-key) audience DID whose text is not valid UTF-8
+				if wd, err := did.Decode(append([]byte{0x9d, 0x1a}, []byte(fmt.Sprintf("web:ex\xffample%d.com", r.Intn(10)))...)); err == nil {
+					audP = wd
+				}
+			}
 			// option subset: bit0 exp explicit, bit1 no expiration, bit2 nbf, bit3 nonce, bit4 facts, bit5 proofs
 			mask := i % 64
 			if i >= 256 {
@@ -379,9 +606,23 @@ func init() {
 				if nodeHasFloat(nd) || nd.Kind() == datamodel.Kind_Null {
 					nd = basicnode.NewString("no floats / bare null as caveats")
 				}
+				if i%3 == 1 && len(caps) == 0 { // caveats holding bytes, a link, an integer and a string with an invalid UTF-8 byte
+					nb := basicnode.Prototype.Map.NewBuilder()
+					ma, _ := nb.BeginMap(5)
+					for _, e := range []struct {
+						k string
+						v datamodel.Node
+					}{{"blob", basicnode.NewBytes(randBytes(r, r.Intn(6)))}, {"ref", basicnode.NewLink(cidlink.Link{Cid: randCid(r, cst)})},
+						{"n", basicnode.NewInt(int64(r.Intn(1000) - 500))}, {"s", basicnode.NewString("caf\xc3" + pick(r, []string{"", "x", "\xa9\xff"}))}, {"r", nd}} {
+						ma.AssembleKey().AssignString(e.k)
+						ma.AssembleValue().AssignNode(e.v)
+					}
+					ma.Finish()
+					nd = nb.Build()
+				}
 				caps = append(caps, ucan.NewCapability[ucan.CaveatBuilder](pick(r, abilities), pick(r, []string{iss.DID.String(), "ucan:*", "https://example.com/ü"}), nodeNb{nd}))
 			}
-			d, err := delegation.Delegate(iss.Signer, aud.DID, caps, opts...)
+			d, err := delegation.Delegate(iss.Signer, audP, caps, opts...)
 			if err != nil {
 				// e.g. an unsigned caveat integer above int64: the dag-json payload cannot be built, Issue returns an error
 				optHist["unissuable"]++
@@ -406,6 +647,10 @@ func init() {
 				return uerr
 			}
 			cases = append(cases, fmt.Sprintf("(%d, %s, %s)", i, ut, hx(d.Root().Bytes())))
+			// (a') the exact bytes handed to Sign / Verify
+			alg, sp, sperr := signPayloadOf(d.Data())
+			signCases = append(signCases, fmt.Sprintf("(%d, %s, %s, %s)", i, hxs(alg), ut, coqOptBytes([]byte(sp), sperr == nil)))
+			signDids = append(signDids, [][]byte{model.Iss, model.Aud})
 			// (b) behaviour: fresh
 			nverify++
 			okv, verr := ucan.VerifySignature(d.Data(), iss.Real)
@@ -431,8 +676,9 @@ func init() {
 				}
 			}
 			// single-field alterations
-			alts := c07Alterations()
+			alts := append(c07Alterations(), c07CollisionAlterations()...)
 			for _, a := range alts {
+				akey := c07CollisionKeys[a.name]
 				m := *model
 				if !a.apply(&m, keys[(i+1)%2]) {
 					continue
@@ -441,12 +687,32 @@ func init() {
 				if err != nil {
 					continue
 				}
+				if string(ad.Root().Bytes()) == string(d.Root().Bytes()) {
+					continue // not an alteration of the token
+				}
 				nalter++
 				altHist[a.name]++
 				okv, _ := ucan.VerifySignature(ad.Data(), iss.Real)
 				if okv {
-					direct = append(direct, map[string]any{"token": i, "label": label, "alteration": a.name,
-						"what": "token still verifies after altering " + a.name, "root_hex": fmt.Sprintf("%x", ad.Root().Bytes())})
+					e := map[string]any{"token": i, "label": label, "alteration": a.name,
+						"what": "token still verifies after altering " + a.name, "root_hex": fmt.Sprintf("%x", ad.Root().Bytes()),
+						"original_root_hex": fmt.Sprintf("%x", d.Root().Bytes())}
+					if akey != "" {
+						e["key"] = akey
+						collHist[akey]++
+						_, sp0, _ := signPayloadOf(d.Data())
+						_, sp1, _ := signPayloadOf(ad.Data())
+						e["same_signed_bytes"] = sp0 == sp1
+					}
+					direct = append(direct, e)
+				}
+				// the model must predict the signed bytes of the altered token as well (floats are outside the model)
+				if akey != "" && akey != "json-integral-float" {
+					if aut, err := utokenCoqFromBytes(ad.Root().Bytes()); err == nil {
+						alg, sp, sperr := signPayloadOf(ad.Data())
+						signCases = append(signCases, fmt.Sprintf("(%d, %s, %s, %s)", 1000000+i, hxs(alg), aut, coqOptBytes([]byte(sp), sperr == nil)))
+						signDids = append(signDids, [][]byte{m.Iss, m.Aud})
+					}
 				}
 			}
 			if len(samples) < 6 {
@@ -471,13 +737,16 @@ func init() {
 				return err
 			}
 		}
+		if err := writeSignShards(o.out, "C07", signCases, signDids, shards); err != nil {
+			return err
+		}
 		keysSorted := make([]string, 0, len(optHist))
 		for k := range optHist {
 			keysSorted = append(keysSorted, k)
 		}
 		sort.Strings(keysSorted)
 		return writeJSON(o.out, "stats.json", map[string]any{"tokens": n, "verify_calls": nverify, "alterations_checked": nalter,
-			"option_masks_covered": len(optHist), "alteration_histogram": altHist, "direct_violations": direct, "samples": samples, "issued_but_undecodable": undecodable,
+			"option_masks_covered": len(optHist), "alteration_histogram": altHist, "collision_histogram": collHist, "sign_cases": len(signCases), "direct_violations": direct, "samples": samples, "issued_but_undecodable": undecodable,
 			"value_kinds": cst})
 	}
 }
